@@ -12,6 +12,7 @@ import Gpa.Model.Truncate
 import Gpa.Model.Telemetry
 import Gpa.Model.Logs
 import Gpa.Model.Ebpf
+import Gpa.Model.Provision
 
 open Gpa
 
@@ -22,6 +23,7 @@ structure DState where
   attr : Attribution.Server := { audit := [], conns := [] }
   roll : Logs.Rolling := { cur := none, archives := [] }
   ebpf : Ebpf.State := { policy := [], skip := [], localMap := [], audit := [] }
+  prov : Provision.Global := Provision.Global.init
   rollCfg : Logs.Settings := { maxSize := 1, maxCount := 1 }
 
 def showRoll (r : Logs.Rolling) : String :=
@@ -45,6 +47,22 @@ def showEbpf (s : Ebpf.State) : String :=
       [kv.2.logonId, kv.2.processId, kv.2.isRoot, kv.2.destIp, kv.2.destPort, kv.2.protocol]))
   let f := fun (kv : List Nat × List Nat) => " [" ++ ",".intercalate (kv.1.map toString) ++ "->" ++ ",".intercalate (kv.2.map toString) ++ "]"
   "audit" ++ String.join (au.map f) ++ " | local" ++ String.join (lo.map f)
+
+def showFlags (f : Provision.Flags) : String :=
+  (if f.redirector then "r" else "") ++ (if f.keyLatch then "k" else "") ++ (if f.listener then "l" else "") ++ "."
+
+def showProv (g : Provision.Global) : String :=
+  let ans := g.tasks.filterMap fun t => match t.kind, t.answer with
+    | .query q _, some a => some s!"q{q}:{if a.finished then 1 else 0}:{showFlags a.notReady}"
+    | _, _ => none
+  s!"flags={showFlags g.actor.flags} fin={if g.actor.fin != 0 then 1 else 0} clock={g.clock} answers={",".intercalate ans}"
+
+def parseFlag (s : String) : Option Provision.Flags :=
+  match s with
+  | "r" => some Provision.fRedirector
+  | "k" => some Provision.fKeyLatch
+  | "l" => some Provision.fListener
+  | _ => none
 
 def stepLine (st : DState) (line : String) : DState × String :=
   match line.trimAscii.toString.splitOn " " with
@@ -212,6 +230,24 @@ def stepLine (st : DState) (line : String) : DState × String :=
       match n.toNat? with
       | some n => (st, ".".intercalate ((Ebpf.ipToSegs n).map toString) ++ s!" {Ebpf.segsToIp (Ebpf.ipToSegs n)}")
       | none => (st, "bad-op")
+  | ["prov", "new"] => ({ st with prov := Provision.Global.init }, showProv Provision.Global.init)
+  | ["prov", "spawn", "ready", f] =>
+      match parseFlag f with
+      | some f => let g := Provision.spawnTask st.prov (.ready f); ({ st with prov := g }, toString (g.tasks.length - 1))
+      | none => (st, "bad-op")
+  | ["prov", "spawn", "reset"] => let g := Provision.spawnTask st.prov .reset; ({ st with prov := g }, toString (g.tasks.length - 1))
+  | ["prov", "spawn", "timeup"] => let g := Provision.spawnTask st.prov .timeup; ({ st with prov := g }, toString (g.tasks.length - 1))
+  | ["prov", "spawn", "query", q, l] =>
+      match q.toInt? with
+      | some q => let g := Provision.spawnTask st.prov (.query q (l == "1")); ({ st with prov := g }, toString (g.tasks.length - 1))
+      | none => (st, "bad-op")
+  | ["prov", "spawn", "querynow", l] =>
+      let g := Provision.spawnTask st.prov (.query st.prov.clock (l == "1")); ({ st with prov := g }, toString (g.tasks.length - 1))
+  | ["prov", "run", i] =>
+      match i.toNat? with
+      | some i => let g := Provision.runIdx st.prov i; ({ st with prov := g }, showProv g)
+      | none => (st, "bad-op")
+  | ["prov", "show"] => (st, showProv st.prov)
   | "authz" :: toks =>
       match Tok.run (do let ip ← Tok.str; let port ← Tok.nat; let e ← Pipeline.pBool
                         let rules ← Tok.opt Rbac.pItem; let u ← Rbac.pUri; let c ← Rbac.pClaims
